@@ -281,22 +281,6 @@ theorem C15_parse_meets_spec (src : Bytes) (complete : Bool) :
       obtain ⟨f1, f2, f3, f4⟩ := C15_normal_form_fixed_point src he
       simp [h4, h5, h1.symm, h2.symm, h3.symm, f1, f2, f3, f4]
 
-/-- The list at index `i` after a `tryRefreshFilters` call. -/
-theorem refreshStep_flt (rq : Req) (ls : List LState) (ins : List (Bool × Fetch)) (i : Nat)
-    (l l' : LState) (due : Bool) (f : Fetch) (hl : ls[i]? = some l) (hi : ins[i]? = some (due, f))
-    (hl' : (refreshStep rq ls ins)[i]? = some l') :
-    l'.flt = if attempted rq l due then refreshOne l.flt f else l.flt := by
-  have hp := phase1_get rq ls ins i l due f hl hi
-  unfold refreshStep at hl'
-  simp only [List.getElem?_map] at hl'
-  cases hg : (phase1 rq ls ins)[i]? with
-  | none => rw [hg] at hp; simp at hp
-  | some r =>
-    rw [hg] at hp hl'
-    simp only [Option.map_some, Option.some.injEq] at hp hl'
-    rw [← hl', reload_flt, hp]
-    split <;> rfl
-
 /-- **The model satisfies the refresh monitor in every reachable state, for
 every list of every call**: not attempted, failed, succeeded with unchanged
 checksum, succeeded and rewritten.  `rew` is the model's "file was replaced". -/
@@ -368,6 +352,157 @@ theorem C15_model_meets_spec (ls0 : List LState) (h : List (Req × List (Bool ×
             rw [hflt']; simpa using hsame
           simp only [obsOf, hne, Bool.false_eq_true, if_false]
           simp [hflt', hout, hcnt, hcrc]
+
+/-! ### set_url (not a refresh: what the code guarantees there) -/
+
+/-- A refused set_url request (duplicate URL, or the download for the new URL
+/ newly enabled list failed) leaves the list's URL, enabled flag, rule count
+and file as they were.  The checksum is the one exception (observation O1):
+it is what the download was compared against — zero after a URL change. -/
+theorem C15_seturl_failure_guarantee (flt : Flt) (rq : SetReq) (f : Fetch)
+    (h : (setProps flt rq f).res = .err) :
+    (setProps flt rq f).urlChanged = false ∧ (setProps flt rq f).flt.enabled = flt.enabled ∧
+    (setProps flt rq f).flt.count = flt.count ∧ (setProps flt rq f).flt.file = flt.file ∧
+    ((setProps flt rq f).flt.checksum = flt.checksum ∨
+      (rq.changed = true ∧ (setProps flt rq f).flt.checksum = 0)) := by
+  rcases setProps_cases flt rq f with h1 | ⟨_, r, h2⟩ | ⟨_, _, h3⟩ | ⟨_, h4⟩
+  · rw [h1]; exact ⟨rfl, rfl, rfl, rfl, Or.inl rfl⟩
+  · rw [h2] at h; cases h
+  · rw [h3] at h; cases h
+  · rw [h4] at h ⊢
+    rcases setDownload_cases flt _ rq.changed f with ⟨c, k, out, _, hs⟩ | ⟨_, _, hs⟩ | ⟨_, _, hs⟩
+    · rw [hs] at h; cases h
+    · rw [hs]
+      refine ⟨rfl, rfl, rfl, rfl, ?_⟩
+      cases hc : rq.changed with
+      | false => left; simp
+      | true => right; simp
+    · rw [hs] at h; cases h
+
+/-- Observation O1, consequence: after a FAILED set_url that tried a new URL,
+the next refresh of the old URL stores byte-identical content again — the
+file is rewritten although the checksum of the content did not change. -/
+theorem C15_observation_O1_rewrite_after_failed_seturl (flt : Flt) (rq : SetReq) (f : Fetch) (data : Bytes)
+    (hok : (parse data true).err = none) (hfile : flt.file = some (parse data true).out)
+    (hck : flt.checksum = (parse data true).st.crc) (hnz : (parse data true).st.crc ≠ 0)
+    (hch : rq.changed = true) (hdup : rq.dup = false) (hen : rq.enabled = true) (hff : fetchFails f = true) :
+    (setProps flt rq f).res = .err ∧
+    (updateIntl (setProps flt rq f).flt.checksum (.body data true)).isSome = true ∧
+    (refreshOne (setProps flt rq f).flt (.body data true)).file = flt.file := by
+  have hsp : setProps flt rq f = ⟨⟨flt.enabled, flt.count, 0, flt.file⟩, false, .err⟩ := by
+    rcases setProps_cases flt rq f with h1 | ⟨he, _⟩ | ⟨_, hc, _⟩ | ⟨_, h4⟩
+    · -- the duplicate branch is excluded
+      exfalso
+      have : setProps flt rq f = setProps flt rq f := rfl
+      unfold setProps at h1
+      simp [hch, hdup, hen] at h1
+      rcases setDownload_cases flt ⟨true, 0, 0, flt.file⟩ true f with ⟨c, k, out, hu, _⟩ | ⟨_, _, hs⟩ | ⟨_, hn, _⟩
+      · rw [updateIntl_none_of_fails hff] at hu; cases hu
+      · rw [hs] at h1
+        simp only [SetOut.mk.injEq, and_true] at h1
+        have := congrArg Flt.checksum h1
+        simp only at this
+        rw [hck] at this
+        exact hnz this.symm
+      · rw [hff] at hn; cases hn
+    · rw [hen] at he; cases he
+    · rw [hch] at hc; cases hc
+    · rw [h4]
+      simp only [hch, if_true]
+      rcases setDownload_cases flt ⟨true, 0, 0, flt.file⟩ true f with ⟨c, k, out, hu, _⟩ | ⟨_, _, hs⟩ | ⟨_, hn, _⟩
+      · rw [updateIntl_none_of_fails hff] at hu; cases hu
+      · exact hs
+      · rw [hff] at hn; cases hn
+  rw [hsp]
+  have hu : updateIntl 0 (.body data true) =
+      some ((parse data true).st.count, (parse data true).st.crc, (parse data true).out) := by
+    simp [updateIntl, hok, hnz]
+  refine ⟨rfl, by simp [hu], ?_⟩
+  simp [refreshOne, hu, hfile]
+
+/-- An accepted set_url that downloads stores exactly what a refresh would:
+the normal form of the complete body, its line count and checksum. -/
+theorem C15_seturl_success_stores_normal_form (flt : Flt) (rq : SetReq) (f : Fetch)
+    (h : (setProps flt rq f).res = .ok true) (hen : rq.enabled = true) :
+    ∃ data, f = .body data true ∧ (parse data true).err = none ∧
+      (setProps flt rq f).flt.file = some (normalForm data) ∧
+      (setProps flt rq f).flt.count = (specLines data).length ∧
+      (setProps flt rq f).flt.checksum = crcLines 0 (specLines data) := by
+  rcases setProps_cases flt rq f with h1 | ⟨he, _⟩ | ⟨_, _, h3⟩ | ⟨_, h4⟩
+  · rw [h1] at h; cases h
+  · rw [hen] at he; cases he
+  · rw [h3] at h; cases h
+  · rw [h4] at h ⊢
+    rcases setDownload_cases flt _ rq.changed f with ⟨c, k, out, hu, hs⟩ | ⟨_, _, hs⟩ | ⟨_, _, hs⟩
+    · obtain ⟨data, rfl, hok, _, rfl, rfl, rfl⟩ := updateIntl_some hu
+      obtain ⟨h1, h2, h3, _, _⟩ := parse_normal data hok
+      rw [hs]
+      exact ⟨data, rfl, hok, by simp [h1], h2, h3⟩
+    · rw [hs] at h; cases h
+    · rw [hs] at h; cases h
+
+/-- Observation O2: a set_url to a NEW URL whose list has no rules (checksum
+0, e.g. an empty body) is accepted, the list now carries the new URL with
+count 0 — and the OLD list's file stays on disk (and in force: no rebuild is
+requested). -/
+theorem C15_observation_O2_empty_list_keeps_old_file (flt : Flt) (en0 : Bool) :
+    setProps ⟨en0, flt.count, flt.checksum, flt.file⟩ ⟨true, false, true⟩ (.body [] true) =
+      ⟨⟨true, 0, 0, flt.file⟩, true, .ok false⟩ := by
+  cases en0 <;> simp [setProps, setDownload, updateIntl, fetchFails, parse, scanLines, runLines, PState.init]
+
+/-- Over ANY history of refreshes and set_url requests on a list: there is no
+file and the metadata are zero, or the file is exactly the stored form of one
+complete successful download, and count and checksum are each zero or those of
+that download — never those of other content. -/
+theorem C15_mixed_history_invariant (flt : Flt) (ops : List LOp) (h : WeakConsistent flt) :
+    WeakConsistent (ops.foldl applyOp flt) := by
+  induction ops generalizing flt with
+  | nil => exact h
+  | cons op ops ih =>
+    apply ih
+    cases op with
+    | refresh f =>
+      simp only [applyOp, refreshOne]
+      cases hu : updateIntl flt.checksum f with
+      | none => simpa using h
+      | some p =>
+        obtain ⟨c, k, out⟩ := p
+        obtain ⟨data, _, he, _, rfl, rfl, rfl⟩ := updateIntl_some hu
+        exact Or.inr ⟨data, he, rfl, Or.inr rfl, Or.inr rfl⟩
+    | setURL rq f =>
+      simp only [applyOp]
+      have zero : ∀ (e : Bool), WeakConsistent ⟨e, 0, 0, flt.file⟩ := by
+        intro e
+        rcases h with ⟨hn, _, _⟩ | ⟨data, he, hf, _, _⟩
+        · exact Or.inl ⟨hn, rfl, rfl⟩
+        · exact Or.inr ⟨data, he, hf, Or.inl rfl, Or.inl rfl⟩
+      have same : ∀ (e : Bool), WeakConsistent ⟨e, flt.count, flt.checksum, flt.file⟩ := by
+        intro e
+        rcases h with ⟨hn, hc, hk⟩ | ⟨data, he, hf, hc, hk⟩
+        · exact Or.inl ⟨hn, hc, hk⟩
+        · exact Or.inr ⟨data, he, hf, hc, hk⟩
+      have mixed : ∀ (e : Bool), WeakConsistent ⟨e, flt.count, 0, flt.file⟩ := by
+        intro e
+        rcases h with ⟨hn, hc, _⟩ | ⟨data, he, hf, hc, _⟩
+        · exact Or.inl ⟨hn, hc, rfl⟩
+        · exact Or.inr ⟨data, he, hf, hc, Or.inl rfl⟩
+      rcases setProps_cases flt rq f with h1 | ⟨_, r, h2⟩ | ⟨_, _, h3⟩ | ⟨_, h4⟩
+      · rw [h1]; exact same flt.enabled
+      · rw [h2]; exact zero false
+      · rw [h3]; exact same true
+      · rw [h4]
+        rcases setDownload_cases flt _ rq.changed f with ⟨c, k, out, hu, hs⟩ | ⟨_, _, hs⟩ | ⟨_, _, hs⟩
+        · obtain ⟨data, _, he, _, rfl, rfl, rfl⟩ := updateIntl_some hu
+          rw [hs]
+          exact Or.inr ⟨data, he, rfl, Or.inr rfl, Or.inr rfl⟩
+        · rw [hs]
+          cases hc : rq.changed with
+          | false => simpa using same flt.enabled
+          | true => simpa using mixed flt.enabled
+        · rw [hs]
+          cases hc : rq.changed with
+          | false => simpa using same true
+          | true => simpa using zero true
 
 /-! ### Non-vacuity -/
 
